@@ -147,6 +147,48 @@ def cases_malformed(tier):
         yield (w, body)
 
 
+def cases_malformed_http(tier):
+    """Malformed bodies as bytes through the real HTTP handler (where the byte-to-text conversion happens)."""
+    seen = set()
+    for t in list(B.NONJSON) + [pre + s for pre in ("\ufeff", "\ufeff\ufeff", "\u200b", "\x00", "\ufffe", "\u00a0") for s in (B.SEEDS[0], "[" + B.SEEDS[1] + "]", B.SEEDS[3])]:
+        if t in seen:
+            continue
+        seen.add(t)
+        try:
+            t.encode("utf-8")
+        except UnicodeEncodeError:
+            continue
+        for w in W_DEFAULT + W_INST[:1]:
+            yield (w, t)
+
+
+def check_malformed_http(case):
+    from mc import httpdrive
+    from mc.ref import rfc8259
+
+    key, body = case
+    w = world(key)
+    out = Out(cls="malformed-http")
+    if rfc8259.is_json_text(body):
+        out.nontrivial = False
+        return out
+    del w.log[:]
+    try:
+        status, headers, reply = httpdrive.post(w.d, body.encode("utf-8"))
+    except Exception as ex:
+        return out.bad("C05/malformed-body/http-handler-raises-%s" % type(ex).__name__, "POST %r raised %r" % (body, ex))
+    if w.log:
+        out.bad("C05/rejected-request-ran-something", "POST of the malformed body %r invoked %r" % (body, w.log))
+    try:
+        r = json.loads(reply.decode("utf-8"))
+    except ValueError:
+        r = None
+    codes = (-32700, -32600) if body.strip() == "" else (-32700,)
+    if not (status == 200 and isinstance(r, dict) and isinstance(r.get("error"), dict) and r["error"].get("code") in codes and r.get("id") is None):
+        out.bad("C05/malformed-body-not-single-32700", "POST of the malformed body %r answered status %s %r" % (body, status, reply[:300]))
+    return out
+
+
 def cases_invalid(tier):
     for j, i, m, p in itertools.product(B.JSONRPC, [ABSENT, None, 0, "a", [1]], B.METHODS, B.PARAMS):
         body = B.dumps(obj(j, i, m, p))
@@ -414,6 +456,7 @@ def leg(name, casegen, ev=evaluate):
 
 LEGS = {
     "malformed": leg("malformed", cases_malformed),
+    "malformed-http": leg("malformed-http", cases_malformed_http, check_malformed_http),
     "invalid": leg("invalid", cases_invalid),
     "translator": leg("translator", cases_translator, check_translator),
     "names": leg("names", cases_names),
@@ -426,7 +469,8 @@ LEGS = {
 META = {
     "technique": "bounded-exhaustive enumeration of failing requests against a reference error-code model (independent RFC 8259 recogniser, "
     "inspect.signature binding, attribute-path resolution)",
-    "rule": "malformed: truncations/corruptions of seed requests + non-JSON texts; invalid: jsonrpc(6) x id(5) x method(11) x params(13); "
+    "rule": "malformed: truncations/corruptions of seed requests + non-JSON texts; malformed-http: the non-JSON texts and valid requests behind a byte order "
+    "mark / zero-width space / NUL / U+FFFE / no-break space as bytes through the real HTTP handler; invalid: jsonrpc(6) x id(5) x method(11) x params(13); "
     "translator: 24 rejected descriptor shapes x 8 placements; names: every dotted path of <=3 segments over a 13-segment alphabet (quick: a "
     "third of the 3-segment paths) against function table and instance; arity: 9 signatures x 21 argument shapes; registry-history: every sequence of <=2 registry changes (instance "
     "replaced / restored, attribute removed, function added / removed) with 8 names resolved before and after each change on one dispatcher; exceptions: 14 "
@@ -445,6 +489,8 @@ def replay(case):
     _W.clear()
     if case["leg"] == "translator":
         return check_translator(c).viols
+    if case["leg"] == "malformed-http":
+        return check_malformed_http(c).viols
     if case["leg"] == "registry-history":
         return check_mutations(c).viols
     if case["leg"] == "client":
